@@ -333,7 +333,7 @@ def r112_r113_angle(ctx, res, fi, direct):
         if ta not in KIND or tb not in KIND:
             raise AnalysisError("%s: operand types %s, %s at `%s`" % (fi.where(r), ta, tb, txt(r)[:40]))
         lab = "angle(%s, %s)" % (ta, tb)
-        iv = _interval(ctx, fi, r.value, acute_ok)
+        iv = _interval(ctx, fi, _resolve_local(fi, r.value), acute_ok)
         if iv is None:
             raise AnalysisError("%s: cannot bound `%s`" % (fi.where(r), txt(r.value)))
         lo, hi, shape = iv
@@ -374,8 +374,9 @@ def r112_r113_angle(ctx, res, fi, direct):
 
 
 def _resolve_local(fi, e):
-    from ..astutil import expand_locals
-    return expand_locals(fi.node, e, fi.params)
+    """locals read as their definitions, private single-return helpers of the module read as their bodies"""
+    from ..astutil import expand_locals, inline_module_calls
+    return inline_module_calls(fi, expand_locals(fi.node, e, fi.params))
 
 
 def r115(ctx, res):
